@@ -260,9 +260,18 @@ static void case_dry_run(vh_case_t* c, int dry) {
 typedef struct { const char* path; const char* prog; sb_t out; pthread_barrier_t* bar; } indep_t;
 
 static void prog_cpuinfo(sb_t* o) {
+    /* the caller keeps the returned pointer and reads the struct whenever it likes: record every
+     * distinct content seen in a short burst of reads right after the call (solo: exactly one) */
     const carquet_cpu_info_t* ci = carquet_get_cpu_info();
-    carquet_cpu_info_t copy; memcpy(&copy, ci, sizeof copy);         /* what the caller sees right now */
-    sb_puts(o, "I="); sb_hex(o, &copy, sizeof copy);
+    carquet_cpu_info_t seen[4]; int nseen = 0;
+    for (int it = 0; it < 20000; it++) {
+        carquet_cpu_info_t copy; memcpy(&copy, ci, sizeof copy);
+        int known = 0;
+        for (int j = 0; j < nseen; j++) if (memcmp(&seen[j], &copy, sizeof copy) == 0) known = 1;
+        if (!known && nseen < 4) seen[nseen++] = copy;
+    }
+    sb_puts(o, "I=");
+    for (int j = 0; j < nseen; j++) { if (j) sb_putc(o, '|'); sb_hex(o, &seen[j], sizeof(carquet_cpu_info_t)); }
 }
 static void prog_crc(sb_t* o) {
     uint8_t buf[1027]; for (size_t i = 0; i < sizeof buf; i++) buf[i] = (uint8_t)(i * 131u + 7u);
